@@ -95,6 +95,7 @@ func c01(ctx *core.Ctx) {
 		bo := rt.DefaultBuild(router)
 		bo.SelFilters = true
 		bo.Switched = ti%4 == 2
+		bo.Default = ti == 0 // once per process: the package-level DefaultContainer through restful.Add / restful.Filter
 		c := rt.Build(t, bo)
 		rr := ctx.Rand(ti, "req")
 		var reqs []rt.Req
@@ -245,6 +246,7 @@ func c02(ctx *core.Ctx) {
 		ctx.Case(ti, "router="+router+" table="+core.JSON(t))
 		bo := rt.DefaultBuild(router)
 		bo.Switched = ti%4 == 2
+		bo.Default = ti == 0
 		c := rt.Build(t, bo)
 		rr := ctx.Rand(ti, "req")
 		var reqs []rt.Req
